@@ -9,6 +9,7 @@ import (
 	"errors"
 	"fmt"
 	"io"
+	"io/fs"
 	"log/slog"
 	"regexp"
 	"time"
@@ -406,6 +407,13 @@ func referrerListDedup(rl []types.Descriptor) []types.Descriptor {
 	return rl
 }
 
+// errIsIO reports whether err is a failure of the filesystem other than "does not exist":
+// the content may be there, it could not be read.
+func errIsIO(err error) bool {
+	var pathErr *fs.PathError
+	return errors.As(err, &pathErr) && !errors.Is(err, fs.ErrNotExist)
+}
+
 // repoGarbageCollect runs a GC against the repo.
 // The repo should be locked before calling this.
 // Changes to the index will be returned and should be saved to the store.
@@ -429,6 +437,8 @@ func repoGarbageCollect(repo Repo, conf config.Config, index types.Index, locked
 		if !keep && conf.Storage.GC.GracePeriod >= 0 {
 			if meta, err := repo.blobMeta(d.Digest, locked); err == nil && meta.mod.After(cutoff) {
 				keep = true
+			} else if errIsIO(err) {
+				return index, false, fmt.Errorf("failed to check the age of %s to GC: %w", d.Digest.String(), err)
 			}
 		}
 		// referrers responses
@@ -436,6 +446,9 @@ func repoGarbageCollect(repo Repo, conf config.Config, index types.Index, locked
 			dig, _ := digest.Parse(d.Annotations[types.AnnotReferrerSubject])
 			subjExists := (dig != "")
 			if _, err := repo.blobMeta(dig, locked); subjExists && err != nil {
+				if errIsIO(err) {
+					return index, false, fmt.Errorf("failed to check subject %s to GC: %w", dig.String(), err)
+				}
 				subjExists = false
 			}
 			if *conf.Storage.GC.ReferrersWithSubj && subjExists {
@@ -486,6 +499,10 @@ func repoGarbageCollect(repo Repo, conf config.Config, index types.Index, locked
 		}
 		br, err := repo.blobGet(d.Digest, locked)
 		if err != nil {
+			if errIsIO(err) {
+				// the manifest may well be there but cannot be read right now: nothing can be decided about what it references
+				return index, false, fmt.Errorf("failed to read manifest %s to GC: %w", d.Digest.String(), err)
+			}
 			continue
 		}
 		seen[d.Digest] = true
@@ -495,6 +512,9 @@ func repoGarbageCollect(repo Repo, conf config.Config, index types.Index, locked
 			man := types.Index{}
 			err = json.NewDecoder(br).Decode(&man)
 			errClose := br.Close()
+			if errIsIO(err) {
+				return index, false, fmt.Errorf("failed to read manifest %s to GC: %w", d.Digest.String(), err)
+			}
 			if err != nil || errClose != nil {
 				continue
 			}
@@ -505,6 +525,9 @@ func repoGarbageCollect(repo Repo, conf config.Config, index types.Index, locked
 			man := types.Manifest{}
 			err = json.NewDecoder(br).Decode(&man)
 			errClose := br.Close()
+			if errIsIO(err) {
+				return index, false, fmt.Errorf("failed to read manifest %s to GC: %w", d.Digest.String(), err)
+			}
 			if err != nil || errClose != nil {
 				continue
 			}
@@ -537,6 +560,10 @@ func repoGarbageCollect(repo Repo, conf config.Config, index types.Index, locked
 			continue
 		}
 		bInfo, errMeta := repo.blobMeta(d, locked)
+		if errIsIO(errMeta) && conf.Storage.GC.GracePeriod >= 0 {
+			// the age of the blob is unknown right now, leave it to a later pass
+			continue
+		}
 		if errMeta == nil && conf.Storage.GC.GracePeriod >= 0 && bInfo.mod.After(cutoff) && !inIndex[d] {
 			// keep recently uploaded blobs (manifests handled above)
 			continue
